@@ -61,6 +61,10 @@ type c09in struct {
 	Seg      int64  `json:"seg,omitempty"`  // index of the segment from the start of the stream
 	NowMS    int64  `json:"now_ms,omitempty"`
 	Why      string `json:"why,omitempty"` // which breakpoint the instant was taken from
+	// edge cases: is the advertised availability instant at or after 2^31 s (January 2038, where float64
+	// seconds have a spacing of 4.8e-7 s), and is the offset a decimal one that float64 cannot represent (not a multiple of 1/8 s)
+	After2038     bool `json:"after_2038,omitempty"`
+	OffsetDecimal bool `json:"offset_decimal,omitempty"` // not a multiple of 1/8 s
 	// Methods: the chunked and the whole-segment URL are also requested with HEAD and OPTIONS
 	Methods bool `json:"methods,omitempty"`
 	// BrokenBefore > 0: the same chunked URL is first requested by a client whose connection breaks at
@@ -1455,7 +1459,11 @@ func replayC09(c *lib.Ctx, env *l1env) error {
 		}
 		adv := in.StartS*1000 + a.Ref().LoopE(in.Seg)*1000/a.Ref().Timescale - atoMSExact(in.Ato)
 		if in.NowMS >= adv && whole.Status != 200 {
-			c.Fail("replay", "refused-when-available", fmt.Sprintf("whole-segment mode answers %d at/after the advertised availability millisecond %d", whole.Status, adv), in)
+			key := "refused-when-available"
+			if strings.Contains(string(whole.Body), "too early by 0ms") {
+				key = "refused-when-available:too-early-by-0ms"
+			}
+			c.Fail("replay", key, fmt.Sprintf("whole-segment mode answers %d (%s) at/after the advertised availability millisecond %d", whole.Status, strings.TrimSpace(string(whole.Body)), adv), in)
 		}
 		if in.NowMS < adv && whole.Status != 425 {
 			c.Fail("replay", "not-refused-early", fmt.Sprintf("whole-segment mode answers %d before the advertised availability millisecond %d", whole.Status, adv), in)
@@ -1808,6 +1816,8 @@ func (e *l1env) availabilityEdge(c *lib.Ctx, rng *rand.Rand) int {
 				adv := startS*1000 + ref.LoopE(seg)*1000/ref.Timescale - atoMSExact(ato)
 				for _, off := range []int64{0, -1} {
 					in := c09in{Kind: "edge", Asset: x.asset, Rep: x.rep, Ato: ato, Chunkdur: "0.5", Mode: "number", Seg: seg, StartS: startS, NowMS: adv + off, Why: fmt.Sprintf("adv%+d", off)}
+					in.After2038 = adv >= (int64(1)<<31)*1000
+					in.OffsetDecimal = atoMSExact(ato)%125 != 0
 					in.fillURLs(a, a.Rep(x.rep), ref)
 					id := fmt.Sprintf("edge%d", n)
 					n++
@@ -1833,6 +1843,9 @@ func (e *l1env) availabilityEdge(c *lib.Ctx, rng *rand.Rand) int {
 					if bad != "" {
 						c.Res.Inputs[id] = in
 						key := "refused-when-available"
+						if off == 0 && strings.Contains(bad, "too early by 0ms") {
+							key = "refused-when-available:too-early-by-0ms"
+						}
 						if off < 0 {
 							key = "not-refused-early"
 						}
